@@ -28,8 +28,43 @@
 //   traits    : base name -> {ordered, arithmetic, fromInt}; "Z" must be listed explicitly when the
 //               context returns traits for Typification::Integer() (Schema does: integral).
 //
+// Rules (T(e) = type of e; "set" = SET(t) or ANY, with element type t resp. ANY; any ill-typed part => REJECT):
+//   X#/C#/S#/D#/A#/T#..  type from env.globals; a name that has parameters must be called; untyped name => REJECT
+//   local x              type of the visible binding; undeclared / out of scope => REJECT
+//   binders              forall/exists, D{..}, R{..}, I{..}, [..] open a scope; a visible name may not be rebound (no
+//                        shadowing); rebinding a name whose scope has ended is fine; unused variables are fine (warnings)
+//   patterns             x : any type;  (p1,..,pn) : TUPLE of exactly n components;  p1,..,pn (quantifier list): each : the type
+//   n  -> Z;   Z -> SET(Z);   empty set -> SET(ANY), but not as a direct operand of card debool red Pr pr and the 4 set operations
+//   R#                   SET(BASE R#), only inside the parameter declarations of a function definition
+//   a+b a-b a*b          both base types with "arithmetic" trait, result Join(a,b)
+//   a<b (4 forms)        both base types with "ordered" trait and joinable -> LOGIC
+//   a=b, a!=b            both objects (not LOGIC), joinable -> LOGIC
+//   a in S, a notin S    S set, T(a) joinable with its element type -> LOGIC
+//   A sub B (3 forms)    B set, T(A) joinable with SET(elements of B) -> LOGIC
+//   A op B (4 set ops)   both sets, SET(Join of element types)
+//   A1 x .. x An         all sets -> SET(TUPLE(elements));      B(A): A set -> SET(SET(elements))
+//   (a1,..,an) -> TUPLE(T(ai));   {a1,..,an} / bool(a) -> SET(Join of all);   debool(A): A set -> elements;   card(A): A set -> Z
+//   Pr_i..(A)            A set of tuples -> SET(selected components)   (ANY elements -> SET(ANY))
+//   pr_i..(a)            a tuple -> selected components (one index: the component itself)   (ANY -> ANY)
+//   red(A)               SET(SET(t)) -> SET(t)                  (ANY, SET(ANY) -> SET(ANY))
+//   Fi_i1..ik[P..](A)    A set of tuples; either k parameters, Pj a SET joinable with component ij, or one parameter,
+//                        a SET joinable with SET(TUPLE(selected)); result T(A)   (A: ANY, SET(ANY) -> SET(ANY), parameters sets)
+//   not, &, or, =>, <=>  operands LOGIC -> LOGIC;   quantifier: domain set, pattern bound to its elements, body LOGIC -> LOGIC
+//   {x in A | P}, D{p in A | P}   as quantifier, result SET(elements of A)
+//   F[a1..an]            F has n parameters and a type; declared types (radicals renamed apart by appending F's name) are
+//                        matched left to right: equal | radical: bind, or join with earlier binding | actual ANY | same shape
+//                        component-wise | Z vs. integer-like; result = declared result with radicals instantiated (LOGIC for predicates)
+//   [x1 in A1,..] body   Ai sets (may use radicals and earlier parameters); result T(body); declaredArgs = (xi, elements of Ai)
+//   R{p := a | [c |] s}  t0 = T(a), t1 = T(s) under p:t0 must be joinable with t0; then iterate p:t_k until T(s) repeats (max 5 rounds);
+//                        c LOGIC under the final binding; result the last t
+//   I{v | blocks}        blocks left to right: p :in A binds p to elements of A; p := a binds p to T(a); else LOGIC; result SET(T(v))
+//   N :== e -> T(e);  N :== -> SET(BASE N);  N ::= e: e built only from Z, global names, B, x, {..}; T(e) a set -> its elements
+// Behaviour of the real checker that looks odd but is followed here (not switchable): tuple pattern over ANY is rejected;
+// Fi parameters of type ANY are rejected (not "sets"); unbound radicals of a result keep their renamed form (R2F10);
+// Z and integer-like types convert in both directions.
+//
 // Restrictions: header-only, no iostream/sstream/regex/locale/unordered containers/std::function,
-// no static mutable state, no exceptions thrown by this code.
+// no static mutable state, no exceptions thrown by this code (token payloads are read only after IsText()/IsTuple()).
 #pragma once
 
 #include <algorithm>
